@@ -173,7 +173,7 @@ type CSSRef struct {
 }
 
 var rec = ev.New("C12", "c12.histories",
-	"histories (<=40 uses, nested in wrapper components, child blocks and once blocks) over 3 script templates (+JSFuncCall), 3 css components (one parameterised) and 3 once handles (block and fixed-component form): render script component, on* attributes with one or two scripts, class expressions holding css components in every container form "+
+	"histories (<=40 uses, nested in wrapper components, child blocks and once blocks) over 3 script templates (+JSFuncCall), 3 css components (one parameterised) and 3 once handles (block and fixed-component form): render script component, on* attributes with one or two scripts, on* attributes inside conditional attributes one and two levels deep (then and else branches), class expressions holding css components in every container form "+
 		"(direct, templ.KV(c,bool), templ.Classes, []templ.CSSClass, templ.CSSClasses with nested KV, func() CSSClass, mixed with strings), once renders; one or several contexts (fresh, shared by consecutive histories, pre-initialised), with/without templ.NewCSSMiddleware pre-registering a subset. "+
 		"Oracle over the HTML5 token stream per context: each script function / css rule / once body is defined at most once and before its first use; the sequence of uses (elements with their class names and handlers, call elements, once contents) equals the reference model's; V8 evaluates all scripts then all handlers: right functions, right arguments; registered classes are never inlined and are served by the stylesheet endpoint; rendering a history alone in a fresh context gives the same bytes. "+
 		"Non-trivial = some script/class/handle is used >=2 times through >=2 different use kinds in one context; distinct by case")
@@ -246,6 +246,21 @@ func (m *model) walk(us []fx.EUse) {
 			m.evs = append(m.evs, event{Kind: "elem", Tag: "input", Handlers: [][]any{capOf(u.A, u.N, u.S)}})
 		case "on-attr2":
 			m.evs = append(m.evs, event{Kind: "elem", Tag: "button", Handlers: [][]any{capOf(u.A, u.N, u.S), capOf(u.B, u.N, u.S)}})
+		case "on-attr-cond":
+			h := capOf(u.A, u.N, u.S)
+			if !u.On {
+				h = capOf(u.B, u.N, u.S)
+			}
+			m.evs = append(m.evs, event{Kind: "elem", Tag: "button", Handlers: [][]any{h}})
+		case "on-attr-cond2":
+			var hs [][]any
+			switch {
+			case u.N != 50 && u.On:
+				hs = [][]any{capOf(u.A, u.N, u.S)}
+			case u.N != 50, u.On:
+				hs = [][]any{capOf(u.B, u.N, u.S)}
+			}
+			m.evs = append(m.evs, event{Kind: "elem", Tag: "button", Handlers: hs})
 		case "class-direct", "class-func":
 			m.evs = append(m.evs, event{Kind: "elem", Tag: "div", HasClass: true, Classes: classAttr([]cls{{cname(u.A, u.N), true}})})
 		case "class-kv":
@@ -657,7 +672,7 @@ func init() {
 
 // ---------- generators ----------
 
-var kinds = []string{"script-call", "on-attr", "on-attr2", "on-attr-void", "class-direct", "class-kv", "class-classes", "class-slice", "class-cssclasses", "class-func", "class-mixed",
+var kinds = []string{"script-call", "on-attr", "on-attr2", "on-attr-void", "on-attr-cond", "on-attr-cond2", "on-attr-cond2", "class-direct", "class-kv", "class-classes", "class-slice", "class-cssclasses", "class-func", "class-mixed",
 	"once-block", "once-block", "once-fixed", "wrap", "jsfunc-call", "jsfunc-attr"}
 
 func genUses(depth, max int) *rapid.Generator[[]fx.EUse] {
@@ -685,6 +700,12 @@ func useKeys(us []fx.EUse, add func(thing, kind string)) {
 		case u.Kind == "on-attr2":
 			add(fmt.Sprintf("s%d", u.A%3), u.Kind)
 			add(fmt.Sprintf("s%d", u.B%3), u.Kind)
+		case u.Kind == "on-attr-cond" || u.Kind == "on-attr-cond2":
+			if u.On && (u.Kind == "on-attr-cond" || u.N != 50) {
+				add(fmt.Sprintf("s%d", u.A%3), u.Kind)
+			} else if u.Kind == "on-attr-cond" || u.N != 50 || u.On {
+				add(fmt.Sprintf("s%d", u.B%3), u.Kind)
+			}
 		case strings.HasPrefix(u.Kind, "class-"):
 			add(cname(u.A, u.N), u.Kind)
 		case u.Kind == "once-block":
